@@ -45,7 +45,7 @@ def positions(ctx):
         pts.append((x, rng.choice(lons)))
         pts.append((-x, rng.choice(lons)))
         x += 1e-5 * (1 if ctx.thorough else 5)
-    for _ in range(ctx.n(1500, 60000)):
+    for _ in range(ctx.n(1500, 12000)):
         pts.append((rng.uniform(-90, 90), rng.uniform(-180, 180)))
     # zone edges in longitude at random latitudes
     for _ in range(ctx.n(300, 5000)):
